@@ -487,15 +487,17 @@ func (r *Runner) assignVal(name string, prev expand.Variable, as *syntax.Assign,
 	for _, elem := range elems {
 		if elem.Index != nil {
 			// Index resets our index with a literal value.
-			index = r.arithm(elem.Index)
-			if index < 0 {
+			k := r.arithm(elem.Index)
+			if k < 0 {
 				// Negative indices count from one past the maximum index.
-				if index += internal.IndexedMax(list, indexes) + 1; index < 0 {
+				if k += internal.IndexedMax(list, indexes) + 1; k < 0 {
+					// Like bash, skip this element and carry on with the rest.
 					r.errf("%s: bad array subscript\n", name)
 					r.exit.code = 1
-					break
+					continue
 				}
 			}
+			index = k
 			list, indexes = internal.SetIndexedElem(list, indexes, index, r.literal(elem.Value))
 			index++
 		} else {
